@@ -128,6 +128,11 @@ def spliced(t, lo, hi, ins):
     return t[:lo] + ins + t[hi:]
 
 
+def txt(a):
+    """The `text` argument as a text term (a str / bytes literal of the code becomes a constant text)."""
+    return as_text(a.text) if V._current else a.text
+
+
 def emits(trace):
     return [ev for ev in trace if ev[0] == "_emit"]
 
@@ -228,22 +233,22 @@ class insert_text_result(_EditBase):
 
     def requires(s, a):
         # text of the same kind as the caption (the other combination goes through an ascii transcoding: not modelled)
-        return both(a.text.kind == s._edit_text.kind, selection_ok(s))
+        return both(txt(a).kind == s._edit_text.kind, selection_ok(s))
 
     def ensures(old, s, a, result):
         t = old._edit_text
         lo, hi = selection(old)
         rt, rp = result
-        yield "length-adds-up", tlen(rt) == tlen(t) - (hi - lo) + tlen(a.text)
-        yield "cursor-just-after-the-insertion", rp == lo + tlen(a.text)
+        yield "length-adds-up", tlen(rt) == tlen(t) - (hi - lo) + tlen(txt(a))
+        yield "cursor-just-after-the-insertion", rp == lo + tlen(txt(a))
         yield "cursor-within-the-new-text", both(0 <= rp, rp <= tlen(rt))
         yield "widget-untouched", both(s._edit_text is old._edit_text, s._edit_pos == old._edit_pos, opt_eq(s.highlight, old.highlight), len(s.trace) == 0)
         # (content equality last: once proved it is assumed, and it is a quantified formula)
-        yield "text-is-old-text-with-the-insertion-at-the-cursor", same_text(rt, spliced(t, lo, hi, a.text))
+        yield "text-is-old-text-with-the-insertion-at-the-cursor", same_text(rt, spliced(t, lo, hi, txt(a)))
 
     def pure_spec(old, a):
         lo, hi = selection(old)
-        return spliced(old._edit_text, lo, hi, a.text), lo + tlen(a.text)
+        return spliced(old._edit_text, lo, hi, txt(a)), lo + tlen(txt(a))
 
 
 # ------------------------------------------------------------------------------------------------ set_edit_text
@@ -279,26 +284,26 @@ class set_edit_text(_EditBase):
     modifies = ("_edit_text", "_edit_pos", "highlight", "pref_col_maxcol")
 
     def requires(s, a):
-        return a.text.kind == s._edit_text.kind
+        return txt(a).kind == s._edit_text.kind
 
     def ensures(old, s, a, result):
-        yield "cursor-kept-or-pulled-back-to-the-end", s._edit_pos == imin(old._edit_pos, tlen(a.text))
+        yield "cursor-kept-or-pulled-back-to-the-end", s._edit_pos == imin(old._edit_pos, tlen(txt(a)))
         yield "selection-forgotten", is_none(s.highlight)
         yield "invalidated-after-the-last-write", both(count_ev(s.trace, "_invalidate") >= 1, s.trace[-1][0] == "_invalidate" if s.trace else False)
-        yield from change_protocol(s.trace, old._edit_text, a.text)
+        yield from change_protocol(s.trace, old._edit_text, txt(a))
         log = signal_log(s.trace)
         if len(log) == 2:
-            yield "postchange-sees-the-adjusted-cursor", log[1][3] == imin(old._edit_pos, tlen(a.text))
-        yield "text-stored", same_text(s._edit_text, a.text)
+            yield "postchange-sees-the-adjusted-cursor", log[1][3] == imin(old._edit_pos, tlen(txt(a)))
+        yield "text-stored", same_text(s._edit_text, txt(a))
 
     def effects(old, s, a, result):
-        p2 = imin(old._edit_pos, tlen(a.text))
-        s.fields["_edit_text"] = a.text
+        p2 = imin(old._edit_pos, tlen(txt(a)))
+        s.fields["_edit_text"] = txt(a)
         s.fields["_edit_pos"] = p2
         s.fields["highlight"] = None
         s.fields["pref_col_maxcol"] = (None, None)
-        s.trace.extend([("_emit", "change", (a.text,), old._edit_text, old._edit_pos), ("_invalidate",),
-                        ("_emit", "postchange", (old._edit_text,), a.text, p2), ("_invalidate",)])
+        s.trace.extend([("_emit", "change", (txt(a),), old._edit_text, old._edit_pos), ("_invalidate",),
+                        ("_emit", "postchange", (old._edit_text,), txt(a), p2), ("_invalidate",)])
 
 
 # ------------------------------------------------------------------------------------------------ insert_text
@@ -316,27 +321,209 @@ class insert_text(_EditBase):
     modifies = ("_edit_text", "_edit_pos", "highlight", "pref_col_maxcol")
 
     def requires(s, a):
-        return both(a.text.kind == s._edit_text.kind, selection_ok(s))
+        return both(txt(a).kind == s._edit_text.kind, selection_ok(s))
 
     def ensures(old, s, a, result):
         t = old._edit_text
         lo, hi = selection(old)
-        new = spliced(t, lo, hi, a.text)
-        yield "cursor-just-after-the-insertion", s._edit_pos == lo + tlen(a.text)
-        yield "length-adds-up", tlen(s._edit_text) == tlen(t) - (hi - lo) + tlen(a.text)
+        new = spliced(t, lo, hi, txt(a))
+        yield "cursor-just-after-the-insertion", s._edit_pos == lo + tlen(txt(a))
+        yield "length-adds-up", tlen(s._edit_text) == tlen(t) - (hi - lo) + tlen(txt(a))
         yield "selection-forgotten", is_none(s.highlight)
-        yield "cursor-stays-on-a-character-boundary", implies(both(bnd(t, hi), lead_ok(a.text)), bnd(s._edit_text, s._edit_pos))
+        yield "cursor-stays-on-a-character-boundary", implies(both(bnd(t, hi), lead_ok(txt(a))), bnd(s._edit_text, s._edit_pos))
         yield from change_protocol(s.trace, t, new)
         yield "text-is-old-text-with-the-insertion-at-the-cursor", same_text(s._edit_text, new)
 
     def effects(old, s, a, result):
         t = old._edit_text
         lo, hi = selection(old)
-        new = spliced(t, lo, hi, a.text)
-        p2 = lo + tlen(a.text)
+        new = spliced(t, lo, hi, txt(a))
+        p2 = lo + tlen(txt(a))
         s.fields["_edit_text"] = new
         s.fields["_edit_pos"] = p2
         s.fields["highlight"] = None
         s.fields["pref_col_maxcol"] = (None, None)
         s.trace.extend([("_emit", "change", (new,), t, old._edit_pos), ("_invalidate",),
                         ("_emit", "postchange", (t,), new, imin(old._edit_pos, tlen(new))), ("_invalidate",), ("_invalidate",)])
+
+
+# ------------------------------------------------------------------------------------------------ valid_char
+
+from pyvc.text import char_ord, char_width, utf8_encoded, xcheck_derived_texts, xcheck_utf8_encode  # noqa: E402
+
+insert_text_result.static_checks = [lambda: ("derived-text-terms-agree-with-cpython", *xcheck_derived_texts())]
+
+
+def _edit_valid(ch):
+    """Edit.valid_char: a double-width first character, or exactly one character that is not a control character."""
+    c0 = ch.get(0)
+    return either(char_width(c0) == 2, both(tlen(ch) == 1, char_ord(c0) >= 32))
+
+
+@contract(ED + "Edit.valid_char", property="C10")
+class edit_valid_char(_EditBase):
+    self_shape = EDIT
+    globals_ = ENC
+    replayable = False
+    params = dict(ch=Text("str"))
+    result = Bool
+    raises = ()
+    modifies = ()
+
+    def requires(s, a):
+        return tlen(a.ch) >= 1  # the empty string is not a key (is_wide_char would index past its end)
+
+    def ensures(old, s, a, result):
+        yield "printable-or-wide", eq(result, _edit_valid(a.ch))
+        yield "pure", both(s._edit_pos == old._edit_pos, s._edit_text is old._edit_text, len(s.trace) == 0)
+
+    def pure_spec(old, a):
+        return _edit_valid(a.ch)
+
+
+VALID = {}  # class name -> contract of its valid_char (filled below); keypress speaks about "the widget's own filter"
+
+
+def valid_char_of(s, key):
+    for c in s.cls.__mro__:
+        if c.__name__ in VALID:
+            return VALID[c.__name__].pure_spec(s, View(dict(ch=key)))
+    raise Unsupported(f"no valid_char contract for {s.cls.__name__}")
+
+
+VALID["Edit"] = edit_valid_char
+
+
+# ------------------------------------------------------------------------------------------------ keypress
+
+LAYOUT_CMDS = (Command.UP, Command.DOWN, Command.MAX_LEFT, Command.MAX_RIGHT)
+
+
+def one_char(t, lo, hi):
+    """[lo, hi) is exactly one character of t ending at / starting from a boundary: one element of a str or of a
+    single-byte text; for UTF-8 a byte that is not a continuation byte (or the start of the text) followed by
+    continuation bytes only."""
+    if t.kind == "str":
+        return both(lo == hi - 1, 0 <= lo)
+    utf8 = enc() == "utf8"
+    unit = both(either(lo == 0, neg(is_cont(t, imax(lo, 0)))), forall(lo + 1, hi, lambda k: is_cont(t, k)))
+    return both(0 <= lo, lo < hi, implies(utf8, unit), implies(neg(utf8), lo == hi - 1))
+
+
+def unchanged(old, s):
+    return both(s._edit_text is old._edit_text, s._edit_pos == old._edit_pos, len(emits(s.trace)) == 0)
+
+
+def key_insertion(s, key):
+    """What a printable key inserts: the key itself, UTF-8 encoded for a bytes widget."""
+    if s._edit_text.kind == "str":
+        return key
+    return utf8_encoded(cur(), key)[0]
+
+
+@contract(ED + "Edit.keypress", property="C10")
+class edit_keypress(_EditBase):
+    self_shape = EDIT
+    invariant = staticmethod(RI)
+    globals_ = ENC
+    replayable = False
+    inline = _EditBase.inline
+    havoc = _EditBase.havoc
+    inline = _EditBase.inline + (ED + "Edit._delete_highlighted",)
+    params = dict(size=Tup(Int), key=Text("str"))
+    raises = ()
+    modifies = ("_edit_text", "_edit_pos", "highlight", "pref_col_maxcol")
+    static_checks = [lambda: ("utf8-encode-model-agrees-with-cpython", *xcheck_utf8_encode())]
+
+    def missing_field(ip, st, obj, name):
+        if name == "_command_map":
+            return COMMAND_MAP
+        return NotImplemented
+
+    def requires(s, a):
+        t = s._edit_text
+        cmd = command_of(a.key)
+        return both(
+            tlen(a.key) >= 1,
+            is_none(s.highlight),                       # the statement's reference editor has no selection
+            in_reach(t), bnd(t, s._edit_pos),           # cursor invariant at entry
+            *[neg(cmd == c) for c in LAYOUT_CMDS],      # up / down / home / end go through the layout: bounded only
+            # a bytes widget: keys come out of a UTF-8 decoder (no lone surrogates); tab / enter insert a str literal
+            # through the ascii transcoding of _normalize_to_caption, which is not modelled
+            t.kind == "str" or both(neg(utf8_encoded(cur(), a.key)[1]),
+                                    neg(both(text_eq(a.key, "tab"), s.allow_tab)), neg(both(text_eq(a.key, "enter"), s.multiline))),
+        )
+
+    def ensures(old, s, a, result):
+        t, p = old._edit_text, old._edit_pos
+        n = tlen(t)
+        key = a.key
+        cmd = command_of(key)
+        handled = is_none(result)
+        yield "cursor-stays-on-a-character-boundary", bnd(s._edit_text, s._edit_pos)
+
+        def inserted(ins, what):
+            yield f"{what}/handled", handled
+            yield f"{what}/cursor-just-after-the-insertion", s._edit_pos == p + tlen(ins)
+            new = spliced(t, p, p, ins)
+            for label, f in change_protocol(s.trace, t, new):
+                yield f"{what}/{label}", f
+            yield f"{what}/text-is-old-text-with-the-insertion-at-the-cursor", same_text(s._edit_text, new)
+
+        def returned_unhandled(what):
+            yield f"{what}/key-returned-unchanged", both(neg(handled), result is key)
+            yield f"{what}/nothing-edited", unchanged(old, s)
+
+        def deleted(lo, hi, what):
+            yield f"{what}/handled", handled
+            yield f"{what}/exactly-one-character", one_char(t, lo, hi)
+            yield f"{what}/cursor-at-the-gap", s._edit_pos == lo
+            new = spliced(t, lo, hi, "" if t.kind == "str" else b"")
+            for label, f in change_protocol(s.trace, t, new):
+                yield f"{what}/{label}", f
+            yield f"{what}/text-is-old-text-without-that-character", same_text(s._edit_text, new)
+
+        if valid_char_of(old, key):
+            yield from inserted(key_insertion(old, key), "printable")
+        elif both(text_eq(key, "tab"), old.allow_tab):
+            k = 8 - p % 8
+            yield "tab/pads-to-the-next-multiple-of-eight", both(1 <= k, k <= 8, (p + k) % 8 == 0)
+            yield from inserted(V_repeat(" ", k), "tab")
+        elif both(text_eq(key, "enter"), old.multiline):
+            yield from inserted("\n", "enter")
+        elif cmd == Command.LEFT:
+            if p == 0:
+                yield from returned_unhandled("left-at-the-start")
+            else:
+                yield "left/handled", handled
+                yield "left/one-character-back", one_char(t, s._edit_pos, p)
+                yield "left/text-untouched", both(s._edit_text is t, len(emits(s.trace)) == 0)
+        elif cmd == Command.RIGHT:
+            if p >= n:
+                yield from returned_unhandled("right-at-the-end")
+            else:
+                yield "right/handled", handled
+                yield "right/one-character-forward", one_char(t, p, s._edit_pos)
+                yield "right/text-untouched", both(s._edit_text is t, len(emits(s.trace)) == 0)
+        elif text_eq(key, "backspace"):
+            if p == 0:
+                yield from returned_unhandled("backspace-at-the-start")
+            else:
+                yield from deleted(s._edit_pos, p, "backspace")
+        elif text_eq(key, "delete"):
+            if p >= n:
+                yield from returned_unhandled("delete-at-the-end")
+            else:
+                yield from deleted(p, p + (n - tlen(s._edit_text)), "delete")
+        else:
+            yield from returned_unhandled("unused-key")
+            yield "unused-key/not-even-redrawn", count_ev(s.trace, "_invalidate") == 0
+
+
+def V_repeat(unit, k):
+    """unit * k as a text term (dual use)."""
+    if isinstance(k, V.Sym):
+        from pyvc.text import SConst, SRepeat
+
+        return SRepeat(SConst(unit), k)
+    return unit * k
